@@ -44,7 +44,7 @@ def extract(profile="dev", repo=None, target_dir=None):
     repo = repo or REPO
     build_driver()
     os.makedirs(WORK, exist_ok=True)
-    tdir = target_dir or os.path.join(WORK, "target")
+    tdir = target_dir or os.environ.get("RBP_TARGET_DIR") or os.path.join(WORK, "target")
     nonce = uuid.uuid4().hex
     out = os.path.join(WORK, "facts-%s-%s.json" % (profile, nonce[:12]))
     prof_dir = "release" if profile == "release" else "debug"
